@@ -22,11 +22,13 @@ PLAN = dict(
     floor=dict(quick=500, thorough=12000),
     tiers=dict(
         quick=[det("rel", H, "cs-rel", 16, 80, 4, tso=True, time_cap=28),
-               det("dbg", H, "cs-dbg", 16, 32, 4, tso=True, time_cap=22)] + WIT,
+               det("dbg", H, "cs-dbg", 16, 32, 4, tso=True, time_cap=22),
+               tsan("C19", 4, 80)] + WIT,
         thorough=[det("rel", H, "cs-rel", 16, 1500, 5, tso=True, time_cap=230),
                   det("dbg", H, "cs-dbg", 16, 500, 5, tso=True, time_cap=150),
                   det("enum-conflict", H, "cs-rel", 16, 20, 2, tso=True, time_cap=90, enum="conflict", enum_cap=300),
-                  det("enum-wake", H, "cs-rel", 16, 30, 2, tso=True, time_cap=70, enum="wake", enum_cap=150)] + WIT,
+                  det("enum-wake", H, "cs-rel", 16, 30, 2, tso=True, time_cap=70, enum="wake", enum_cap=150),
+               tsan("C19", 16, 600)] + WIT,
     ),
 )
 TEXT = dict(
